@@ -44,11 +44,16 @@ pub struct BootCfg {
     pub workers: usize,
     /// extra `name=value` options
     pub options: Vec<(String, String)>,
+    /// record every object `verify_heap` forgets (dead, not in a never-collected space) in
+    /// `World::dead_log` (the consumer drains it); off by default
+    pub record_dead: bool,
+    /// called at the end of every successful `World::gc(m, exhaustive)` with `exhaustive`
+    pub post_gc_hook: Option<fn(&mut World, bool) -> Result<(), Fail>>,
 }
 
 impl BootCfg {
     pub fn new(plan: &str) -> Self {
-        BootCfg { plan: plan.to_string(), heap_bytes: 16 << 20, workers: 1, options: vec![] }
+        BootCfg { plan: plan.to_string(), heap_bytes: 16 << 20, workers: 1, options: vec![], record_dead: false, post_gc_hook: None }
     }
     pub fn json(&self) -> Value {
         json!({"plan": self.plan, "heap_bytes": self.heap_bytes, "workers": self.workers, "options": self.options, "placement": PLACEMENT, "features": feature_set()})
@@ -193,6 +198,15 @@ pub struct World {
     pub expected_weak_calls: Option<usize>,
     /// the collection being verified was requested by the harness and traced the whole heap
     pub gc_traced_whole_heap: bool,
+    /// (opt-in, `BootCfg::record_dead`) the objects forgotten by `verify_heap` because they died
+    /// in a collected space, with their last address; drained by the consumer
+    pub record_dead: bool,
+    pub dead_log: Vec<SObj>,
+    /// (same opt-in) surviving objects a collection moved, as they were before the move (`addr` =
+    /// the address they vacated); drained by the consumer
+    pub vacated_log: Vec<SObj>,
+    /// (opt-in, `BootCfg::post_gc_hook`) extra oracle run after every requested collection
+    pub post_gc_hook: Option<fn(&mut World, bool) -> Result<(), Fail>>,
 }
 
 /// A violation found by the world: (signature class, message).
@@ -241,6 +255,10 @@ impl World {
             monitor_c13: true,
             expected_weak_calls: None,
             gc_traced_whole_heap: false,
+            record_dead: cfg.record_dead,
+            dead_log: vec![],
+            vacated_log: vec![],
+            post_gc_hook: cfg.post_gc_hook,
             cfg,
         };
         w.bind(0);
@@ -485,7 +503,11 @@ impl World {
         if after == before {
             return fail("gc:returned_early", "block_for_gc returned but no collection finished".to_string());
         }
-        self.after_possible_gc()
+        self.after_possible_gc()?;
+        if let Some(h) = self.post_gc_hook {
+            h(self, exhaustive)?;
+        }
+        Ok(())
     }
 
     /// If collections happened since the last look, verify the heap against the shadow.
@@ -723,11 +745,16 @@ impl World {
             let o = self.shadow.objs.remove(id).unwrap();
             if self.never_collected(&o) {
                 self.shadow.immortal_garbage.push(o);
+            } else if self.record_dead {
+                self.dead_log.push(o);
             }
         }
         for (id, a) in &new_addr {
             let so = self.shadow.objs.get_mut(id).unwrap();
             if so.addr != *a {
+                if self.record_dead {
+                    self.vacated_log.push(so.clone());
+                }
                 so.moved += 1;
                 so.addr = *a;
             }
